@@ -102,6 +102,8 @@ class MiniEval:
         for ty, names in _SAFE_METHODS.items():
             if isinstance(obj, ty) and n.attr in names:
                 return getattr(obj, n.attr)
+        if obj is None:
+            raise ModelRaise("AttributeError", f"'NoneType' object has no attribute '{n.attr}'")
         raise Unsupported(f"attribute {n.attr} on {type(obj).__name__}")
 
     def ev_Call(self, n):
